@@ -1,4 +1,54 @@
-(* placeholder until proofs land *)
-From PV Require Import Model.AnnotationOps.
-Theorem C09_placeholder : True. Proof. exact I. Qed.
-Print Assumptions C09_placeholder.
+(* C09  Annotation.support, label durations, chart, argmax and co-occurrence are exact.
+   Proved: chart lists every label in use exactly once with its from-scratch duration in
+   non-increasing order; label_duration is the measure of the union of the label's segments
+   (eps = 0); argmax returns a label of maximal duration, None only when nothing is there; the
+   matrix a * b has entry (i, j) = sum over intersecting track pairs labelled (i, j) of the
+   intersection duration, and entry (j, i) of b * a equals entry (i, j) of a * b.
+   Tied by the correspondence, not proved: Annotation.support(collar) (compared as (segment, label)
+   sets with distinct track names), argmax with a support (through the crop), percent=True.
+   Statements only. *)
+From PV Require Import Model.AnnotationOps Proofs.SupportP Proofs.MeasureP Proofs.AnnotationInvP
+  Proofs.AnalyzeP Proofs.CooccurrenceP.
+
+Theorem C09_chart : forall eps a, AInv eps a ->
+  let ch := snd (chart eps a) in
+  nonincr ch /\ NoDup (map fst ch) /\
+  (forall l, In l (map fst ch) <-> occurs (a_tracks a) l) /\
+  (forall l d, In (l, d) ch -> d = tl_duration eps (lab_tl eps (a_tracks a) l)).
+Proof. exact chart_spec. Qed.
+Theorem C09_label_duration_is_length_of_union : forall a l lo n, AInv 0 a ->
+  (forall s, In s (lab_tl 0 (a_tracks a) l) -> lo <= st s /\ en s <= lo + Z.of_nat n) ->
+  snd (label_duration 0 a l) = measure lo n (lab_tl 0 (a_tracks a) l).
+Proof. exact label_duration_is_measure. Qed.
+Theorem C09_argmax : forall eps a, AInv eps a ->
+  match argmax_ann eps a None with
+  | None => a_bool a = false \/ snd (labels eps a) = []
+  | Some l => In l (snd (labels eps a)) /\
+              forall l', In l' (snd (labels eps a)) ->
+                snd (label_duration eps (fst (labels eps a)) l') <= snd (label_duration eps (fst (labels eps a)) l)
+  end.
+Proof. exact argmax_spec. Qed.
+Theorem C09_matrix_entries : forall eps a b,
+  mul_ann eps a b = map (fun i => map (fun j => entry eps a b i j) (snd (labels eps b))) (snd (labels eps a)).
+Proof. exact mul_entries. Qed.
+Theorem C09_track_pairs_of_b_a_are_those_of_a_b_swapped : forall eps, 0 <= eps -> forall a b,
+  WF eps (a_tracks a) -> WF eps (a_tracks b) ->
+  Permutation (co_iter_ann eps b a) (map swap_tp (co_iter_ann eps a b)).
+Proof. exact co_iter_ann_transpose. Qed.
+Theorem C09_matrix_transpose : forall eps, 0 <= eps -> forall a b i j,
+  WF eps (a_tracks a) -> WF eps (a_tracks b) -> entry eps b a j i = entry eps a b i j.
+Proof. exact mul_transpose. Qed.
+
+Example C09_nonvacuous :
+  let a := ann_of 0 None None [((0, 10), NStr "x", NStr "A"); ((8, 20), NStr "x", NStr "B"); ((9, 12), NStr "y", NStr "A")] in
+  let b := ann_of 0 None None [((5, 15), NStr "_", NStr "U")] in
+  snd (chart 0 a) = [(NStr "A", 12); (NStr "B", 12)] /\ argmax_ann 0 a None = Some (NStr "A") /\
+  mul_ann 0 a b = [[8]; [7]] /\ mul_ann 0 b a = [[8; 7]].
+Proof. vm_compute. repeat split. Qed.
+
+Print Assumptions C09_chart.
+Print Assumptions C09_label_duration_is_length_of_union.
+Print Assumptions C09_argmax.
+Print Assumptions C09_matrix_entries.
+Print Assumptions C09_track_pairs_of_b_a_are_those_of_a_b_swapped.
+Print Assumptions C09_matrix_transpose.
